@@ -284,6 +284,7 @@ pub fn cmd_bwrec(args: &Args) -> i32 {
             for (k, fld) in fields.iter().enumerate() {
                 fj.insert(fld.to_string(), json!(if k == n.min(4) { "T" } else { "abs" }));
             }
+            fj.insert("G".to_string(), json!("abs"));
             let len = n.min(4);
             let mut order: Vec<usize> = (0..len).collect();
             if family == 1 {
@@ -307,6 +308,45 @@ pub fn cmd_bwrec(args: &Args) -> i32 {
                 "maxsol": 1, "neg": false, "verdict": verdict, "holds": holds, "unchanged": unchanged})).unwrap();
             continue;
         }
+        if family == 3 {
+            // a proof that FAILS after nested sub-goals succeeded: A <= B /\ X ; B <= C /\ D ; C <= E ; D <= G ; G <= E ; facts E.
+            // X is a condition that cannot be established (E == false, or a field no rule derives); the order of the two conditions
+            // of A and of B, and the order of the rules, vary. Everything derived on the way (B, C, D, G) must be gone afterwards.
+            nr = 0;
+            let _ = nr;
+            let x = if rng.chance(1, 2) { json!(["E", "F"]) } else { json!(["A", "F"]) };
+            let b = json!(["B", "T"]);
+            let (a1, a2) = if rng.chance(1, 2) { (b.clone(), x.clone()) } else { (x.clone(), b.clone()) };
+            let (c, d) = (json!(["C", "T"]), json!(["D", "T"]));
+            let (b1, b2) = if rng.chance(2, 3) { (c.clone(), d.clone()) } else { (d.clone(), c.clone()) };
+            let mut specs: Vec<(Value, &str)> = vec![
+                (json!({"k": "and", "a": a1, "b": a2}), "A"),
+                (json!({"k": "and", "a": b1, "b": b2}), "B"),
+                (json!({"k": "one", "a": ["E", "T"], "b": ["E", "T"]}), "C"),
+                (json!({"k": "one", "a": ["G", "T"], "b": ["G", "T"]}), "D"),
+                (json!({"k": "one", "a": ["E", "T"], "b": ["E", "T"]}), "G"),
+            ];
+            // a random rotation of the rule order
+            let rot = rng.below(specs.len());
+            specs.rotate_left(rot);
+            for (ri, (body, h)) in specs.iter().enumerate() {
+                rules.push(mk_rule(ri + 1, body, h, "T", false));
+                rules_json.push(json!({"body": body, "hf": h, "hv": "T", "bad": false}));
+            }
+            let fj = json!({"A": "abs", "B": "abs", "C": "abs", "D": "abs", "E": "T", "G": "abs"});
+            let mut facts = HashMap::new();
+            for (k, v) in fj.as_object().unwrap() {
+                facts.insert(k.clone(), v.as_str().unwrap().to_string());
+            }
+            let depth = 2 + rng.below(4);
+            let mut e = mk_engine(&rules, depth, "dfs", 1, rng.chance(1, 2));
+            let mut fs = mk_facts(&facts);
+            let (verdict, holds, unchanged) = run_query(&mut e, &mut fs, "A", "T");
+            if verdict == "yes" { yes += 1; } else if verdict == "no" { no += 1; }
+            writeln!(f, "{}", json!({"rules": rules_json, "facts": fj, "gf": "A", "gv": "T", "depth": depth, "strat": "dfs",
+                "maxsol": 1, "neg": false, "verdict": verdict, "holds": holds, "unchanged": unchanged})).unwrap();
+            continue;
+        }
         if family == 2 {
             // tree: A <= B /\ C ; B <= D ; C <= D /\ E ; facts D, E  (height 2)
             nr = 0;
@@ -317,7 +357,7 @@ pub fn cmd_bwrec(args: &Args) -> i32 {
                 rules.push(mk_rule(ri + 1, &body, h, "T", false));
                 rules_json.push(json!({"body": body, "hf": h, "hv": "T", "bad": false}));
             }
-            let fj = json!({"A": "abs", "B": "abs", "C": "abs", "D": "T", "E": "T"});
+            let fj = json!({"A": "abs", "B": "abs", "C": "abs", "D": "T", "E": "T", "G": "abs"});
             let mut facts = HashMap::new();
             for (k, v) in fj.as_object().unwrap() {
                 facts.insert(k.clone(), v.as_str().unwrap().to_string());
@@ -354,6 +394,7 @@ pub fn cmd_bwrec(args: &Args) -> i32 {
         for fld in fields.iter().skip(nf) {
             facts_json.insert(fld.to_string(), json!("abs"));
         }
+        facts_json.insert("G".to_string(), json!("abs"));
         let gf = fields[rng.below(nf)];
         let gv = ["T", "F"][rng.below(4) / 3];
         let depth = rng.below(7);
